@@ -20,6 +20,8 @@ import importlib
 import importlib.machinery
 import json
 import os
+import shutil
+import tempfile
 import time
 from pathlib import Path
 
@@ -38,6 +40,20 @@ FP = [('jedi/api/project.py', '_remove_duplicates_from_path'),
       ('jedi/inference/imports.py', 'Importer._sys_path_with_modifications'),
       ('jedi/api/__init__.py', 'Script.__init__')]
 
+# fingerprints of the modelled definitions at the time the model was transcribed; a change only
+# multiplies the number of correspondence cases (DESIGN §2 "change-directed intensification")
+BASE_FP = {
+    'jedi/api/project.py:_remove_duplicates_from_path': '4d7c0dbc96834d2d',
+    'jedi/api/project.py:Project.__init__': '2d57fdb059bcfe47',
+    'jedi/api/project.py:Project.save': '2ec73dfd9cf5d116',
+    'jedi/api/project.py:Project.load': '624332aa5b42da4b',
+    'jedi/api/project.py:Project._get_base_sys_path': '3b64cea3ba579917',
+    'jedi/api/project.py:Project._get_sys_path': '5707302c0d6202cb',
+    'jedi/inference/__init__.py:InferenceState.get_sys_path': '21c7889f6d3c4c8a',
+    'jedi/inference/imports.py:Importer._sys_path_with_modifications': 'a2df30512beafe87',
+    'jedi/api/__init__.py:Script.__init__': 'b7e4a0e95c2edeae',
+}
+
 NAMES = ['d0', 'pkg', 'sub', 'é', '日本', 'a b', 'x', 'xy', 'ü𝒳', 'd.e', 'src']
 FLAGS = [(True, False), (True, True), (False, False), (False, True)]   # (add_parent_paths, add_init_paths)
 
@@ -45,6 +61,31 @@ FLAGS = [(True, False), (True, True), (False, False), (False, True)]   # (add_pa
 # ----------------------------------------------------------------------------- Gallina printers
 def g_optT(x, f, ty):
     return '(@None (%s))' % ty if x is None else '(Some %s)' % f(x)
+
+
+# ASCII runs are written as Coq string literals (parsed natively) and converted by `A`; coqc spends
+# several ms on every numeral of a `[47;116;...]%N` list, which would dominate the run time.
+ADEF = ('Fixpoint A (s : String.string) : list N := match s with String.EmptyString => nil '
+        '| String.String c r => Ascii.N_of_ascii c :: A r end.\n')
+
+
+def g_str2(x):
+    if x == '':
+        return '(@nil N)'
+    parts, i = [], 0
+    safe = lambda ch: 32 <= ord(ch) <= 126 and ch != '"'
+    while i < len(x):
+        j = i
+        if safe(x[i]):
+            while j < len(x) and safe(x[j]):
+                j += 1
+            parts.append('A "%s"%%string' % x[i:j])
+        else:
+            while j < len(x) and not safe(x[j]):
+                j += 1
+            parts.append('[' + ';'.join(str(ord(ch)) for ch in x[i:j]) + ']%N')
+        i = j
+    return '(' + ' ++ '.join(parts) + ')'
 
 
 class G:
@@ -82,12 +123,12 @@ class G:
     def wrap(self, term):
         head = []
         if self.prefix:
-            head.append('let pfx : str := %s in ' % g_str(self.prefix))
+            head.append('let pfx : str := %s in ' % g_str2(self.prefix))
         for x, n in self.names.items():
             if self.prefix and x.startswith(self.prefix):
-                head.append('let %s : str := pfx ++ %s in ' % (n, g_str(x[len(self.prefix):])))
+                head.append('let %s : str := pfx ++ %s in ' % (n, g_str2(x[len(self.prefix):])))
             else:
-                head.append('let %s : str := %s in ' % (n, g_str(x)))
+                head.append('let %s : str := %s in ' % (n, g_str2(x)))
         return '(' + ''.join(head) + term + ')'
 
 
@@ -146,7 +187,7 @@ def short(root, x):
     if isinstance(x, (list, tuple)):
         return [short(root, y) for y in x]
     if isinstance(x, dict):
-        return {k: short(root, v) for k, v in x.items()}
+        return {short(root, k): short(root, v) for k, v in x.items()}
     return x
 
 
@@ -422,10 +463,10 @@ def compose_case_term(c, r):
 
 def compose_show(c, r):
     t = compose_case_term(c, r)
-    return common.coq_show(IMPORTS, [
+    return common.coq_show(IMPORTS, defs=ADEF, exprs=[
         "let '(cwd, a, dj, env, sc, inits, bo, obs, op) := %s in let cw := parse_path cwd in "
         "let p := set_django dj (mk_project cw a) in let sp := option_map (fun s => absolute cw (parse_path s)) sc in "
-        "(observe p, map (fun f => get_sys_path p env sp (map parse_path inits) bo (fst f) (snd f)) "
+        "(observe p, map (fun f : bool * bool => get_sys_path p env sp (map parse_path inits) bo (fst f) (snd f)) "
         "[(true,false);(true,true);(false,false);(false,true)])" % t])
 
 
@@ -493,7 +534,7 @@ def stream_compose(ctx, root, n):
         terms.append(compose_case_term(c, r))
         metas.append(meta)
     ctx.stat('compose', dist)
-    fails, err = common.coq_failing(IMPORTS, COMPOSE_FN, terms, shard=max(10, len(terms) // 14 + 1))
+    fails, err = common.coq_failing(IMPORTS, COMPOSE_FN, terms, shard=max(10, len(terms) // 8 + 1), defs=ADEF)
     if err:
         raise RuntimeError('coq evaluation failed (compose): ' + err)
     fails = set(fails)
@@ -616,7 +657,7 @@ def stream_roundtrip(ctx, root, n):
         terms.append(g.wrap('(%s, %s, %s, %s)' % (g.s(c['cwd']), g.args(c['args']), g.observed(before),
                                                   g_optT(after, g.observed, 'observed'))))
     ctx.stat('roundtrip', dist)
-    fails, err = common.coq_failing(IMPORTS, ROUNDTRIP_FN, terms, shard=max(10, len(terms) // 14 + 1))
+    fails, err = common.coq_failing(IMPORTS, ROUNDTRIP_FN, terms, shard=max(10, len(terms) // 8 + 1), defs=ADEF)
     if err:
         raise RuntimeError('coq evaluation failed (roundtrip): ' + err)
     fails = set(fails)
@@ -633,7 +674,7 @@ def stream_roundtrip(ctx, root, n):
             shown += 1
             if shown <= 4:
                 g = G()
-                model = common.coq_show(IMPORTS, [g.wrap('let cw := parse_path %s in let p := mk_project cw %s in '
+                model = common.coq_show(IMPORTS, defs=ADEF, exprs=[g.wrap('let cw := parse_path %s in let p := mk_project cw %s in '
                                                          '(observe p, option_map (fun j => observe (load cw j)) (save p))'
                                                          % (g.s(c['cwd']), g.args(c['args'])))])
                 ctx.violation('obligation', dict(what='correspondence mk_project/save/load: model and implementation differ; '
@@ -779,7 +820,7 @@ def stream_import(ctx, root, n):
             g.s(c['cwd']), g.args(a), g.strs(r['env']), g.s(L['script']), g.strs(init_dirs(L)),
             g.strs([c['mods']] if c['mods'] else []), g.strs(has))))
         pending.append((c, r, meta, base, added))
-    vals, err = common.coq_eval_N_lists(IMPORTS, 'jv_import', terms, shard=max(10, len(terms) // 14 + 1), defs=IMPORT_DEFS)
+    vals, err = common.coq_eval_N_lists(IMPORTS, 'jv_import', terms, shard=max(10, len(terms) // 8 + 1), defs=ADEF + IMPORT_DEFS)
     if err:
         raise RuntimeError('coq evaluation failed (import): ' + err)
     shown = 0
@@ -859,12 +900,7 @@ def run(ctx):
     ctx.proofs()
     fps = common.fingerprint(FP)
     ctx.cov['fingerprints'] = fps
-    base_fp = os.path.join(common.VERIF, 'harness', 'c20_fingerprints.json')
-    changed = False
-    try:
-        changed = json.load(open(base_fp)) != fps
-    except Exception:
-        pass
+    changed = sorted(k for k in fps if BASE_FP.get(k) != fps[k])
     ctx.cov['intensified'] = changed
     mult = 3 if (changed and ctx.quick) else 1
     ctx.cov['rule'] = ('compose: seeded constructor-argument x layout x script-location configurations, 4 flag combinations each; '
@@ -877,17 +913,22 @@ def run(ctx):
         'json (de)serialisation of str/bool/None/list values is taken as the identity',
         'project paths containing ".." or a "//" root are modelled lexically; the ancestor clause of the oracle is not applied to them',
     ]
-    root = os.path.join(os.path.realpath(ctx.tmp), 'w')
-    os.makedirs(root, exist_ok=True)
+    # a short root keeps the Gallina case files small
+    root = os.path.realpath(tempfile.mkdtemp(prefix='jv20', dir='/tmp'))
     here = os.getcwd()
     try:
-        for f, n in ((stream_compose, ctx.n(700, 6000) * mult), (stream_roundtrip, ctx.n(500, 4000) * mult),
-                     (stream_import, ctx.n(260, 2500) * mult)):
+        try:
+            scale = float(os.environ.get('VERIF_C20_SCALE', '') or 1)     # self-test convenience only
+        except ValueError:
+            scale = 1
+        for f, n in ((stream_compose, ctx.n(600, 6000) * mult), (stream_roundtrip, ctx.n(400, 4000) * mult),
+                     (stream_import, ctx.n(240, 2500) * mult)):
             t = time.time()
-            f(ctx, root, n)
+            f(ctx, root, max(20, int(n * scale)))
             ctx.stat('wall_' + f.__name__, round(time.time() - t, 1))
     finally:
         os.chdir(here)
+        shutil.rmtree(root, ignore_errors=True)
 
 
 def replay(ctx, path):
@@ -931,7 +972,7 @@ def replay(ctx, path):
             except Exception as e:
                 print('save/load raised now:', repr(e))
             g = G()
-            print('model:', common.coq_show(IMPORTS, [g.wrap('let cw := parse_path %s in let p := mk_project cw %s in '
+            print('model:', common.coq_show(IMPORTS, defs=ADEF, exprs=[g.wrap('let cw := parse_path %s in let p := mk_project cw %s in '
                                                              '(observe p, option_map (fun j => observe (load cw j)) (save p))'
                                                              % (g.s(inp['cwd']), g.args(a)))])[-2000:])
         else:
@@ -944,10 +985,27 @@ def replay(ctx, path):
             env = get_cached_default_environment()
             if inp.get('env') is not None:
                 env = FakeEnv(env, inp['env'])
+            b = inp.get('buildout')
+            if b:
+                open(os.path.join(b['dir'], 'buildout.cfg'), 'w').close()
+                os.makedirs(os.path.join(b['dir'], 'bin'), exist_ok=True)
+                with open(os.path.join(b['dir'], 'bin', 'run'), 'w') as f:
+                    f.write('#!/usr/bin/python\nimport sys\nsys.path[0:0] = [\n%s]\n' % ''.join('  %r,\n' % x for x in b['paths']))
             s = jedi.Script('', path=sc, project=p, environment=env)
             for app, aip in FLAGS:
                 print('get_sys_path(add_parent_paths=%s, add_init_paths=%s) now:' % (app, aip),
                       s._inference_state.get_sys_path(add_parent_paths=app, add_init_paths=aip))
+            g = G()
+            inits = sorted(d for d, k in (inp.get('init_kinds') or {}).items() if k == 'file')
+            bo = [str(x) for x in b['paths']] if b and a['smart'] else []
+            term = ('let cw := parse_path %s in let p := set_django %s (mk_project cw %s) in '
+                    'map (fun f : bool * bool => get_sys_path p %s %s (map parse_path %s) %s (fst f) (snd f)) '
+                    '[(true,false);(true,true);(false,false);(false,true)]' % (
+                        g.s(inp['cwd']), g_bool(bool(inp.get('django'))), g.args(a), g.strs(list(env.get_sys_path())),
+                        g_optT(None if sc is None else str(sc), lambda x: '(absolute cw (parse_path %s))' % g.s(x), 'path'),
+                        g.strs(inits), g.strs(bo)))
+            print('model (same 4 flag combinations; buildout order as generated):')
+            print(common.coq_show(IMPORTS, defs=ADEF, exprs=[g.wrap(term)])[-6000:])
     finally:
         os.chdir(here)
     return 0
